@@ -42,11 +42,12 @@ type PJSpell struct {
 
 type pjw struct {
 	jw
-	ps       PJSpell
-	unknowns int
-	nulls    int
-	empties  int
-	unkSeq   int
+	ps        PJSpell
+	unknowns  int
+	nulls     int
+	empties   int
+	floatInts int
+	unkSeq    int
 }
 
 func (w *pjw) key(fd protoreflect.FieldDescriptor) {
@@ -58,12 +59,28 @@ func (w *pjw) key(fd protoreflect.FieldDescriptor) {
 	}
 }
 
+// intAsFloat spells an integer (exactly representable as a double) with a fraction or an exponent: 5.0, 1.2e+10
+func (w *pjw) intAsFloat(f float64) {
+	s := strconv.FormatFloat(f, 'f', 1, 64)
+	if w.r.Bool() {
+		s = strconv.FormatFloat(f, []byte{'e', 'E'}[w.r.Intn(2)], -1, 64)
+	}
+	w.sb.WriteString(s)
+	w.floatInts++
+}
+
 func (w *pjw) scalar(fd protoreflect.FieldDescriptor, v protoreflect.Value) {
 	switch fd.Kind() {
 	case protoreflect.BoolKind:
 		w.sb.WriteString(strconv.FormatBool(v.Bool()))
 	case protoreflect.Int32Kind, protoreflect.Sint32Kind, protoreflect.Sfixed32Kind,
 		protoreflect.Int64Kind, protoreflect.Sint64Kind, protoreflect.Sfixed64Kind:
+		// (int32 / int64 fields take a number with a fraction or exponent - "cast double2int32, double2int64" in
+		// the converter; the other integer kinds treat such a literal as a kind mismatch, which the statement allows)
+		if x := v.Int(); w.sp.NumExp && (fd.Kind() == protoreflect.Int32Kind || fd.Kind() == protoreflect.Int64Kind) && x > -(1<<53) && x < 1<<53 && w.r.Chance(25) {
+			w.intAsFloat(float64(x))
+			return
+		}
 		w.sb.WriteString(strconv.FormatInt(v.Int(), 10))
 	case protoreflect.Uint32Kind, protoreflect.Fixed32Kind, protoreflect.Uint64Kind, protoreflect.Fixed64Kind:
 		w.sb.WriteString(strconv.FormatUint(v.Uint(), 10))
@@ -720,6 +737,9 @@ func c09Messages(cs *h.Case, huge bool) {
 		}
 		if w.empties > 0 {
 			cs.Cover("j2p_docs_with_empty_containers")
+		}
+		if w.floatInts > 0 {
+			cs.Cover("j2p_docs_with_float_spelled_integers")
 		}
 		if c09Check(cs, desc, pc.Root, doc, m, o, kind) {
 			cs.Cover("j2p_ok")
